@@ -157,7 +157,7 @@ FIXED_WITNESSES = [   # the shapes repaired by the four fix commits of 2026-09-2
 
 
 def generate(rng, tier):
-    n = 70 if tier == "quick" else 350
+    n = 160 if tier == "quick" else 700
     cases = [WITNESS, half_cases()] + FIXED_WITNESSES
     for _ in range(n):
         cases += gen_case(rng, tier)
